@@ -16,7 +16,8 @@ continuation.  Per path:
   * the complete real entry point on the path's concrete witness string gives
     the same result (this validates the harness' mirror of the standard
     parser's retry wrapper), and so does a parser that parsed other strings
-    before and holds the same declarations (history independence).
+    before and holds the same declarations, and a parser whose store reached
+    the declarations by in-place redeclaration (history independence).
 """
 from __future__ import annotations
 
@@ -76,6 +77,11 @@ def unit(arg):
         if hist != got:
             bad.append(dict(kind='history', text=text, mask=mask,
                             error=f'fresh parser: {got}; after earlier parses: {hist}'))
+            continue
+        red = parsex.redeclared_outcome(notation, text, store0)
+        if red != got:
+            bad.append(dict(kind='history', text=text, mask=mask,
+                            error=f'fresh parser: {got}; store redeclared in place: {red}'))
     st = ex.stats()
     samples = []
     for p in paths[:1] + paths[len(paths) // 2:len(paths) // 2 + 1]:
@@ -206,7 +212,9 @@ def replay(data):
                    'SxFx' if notation == 'polish' else 'XxFx', 'KaNb' if notation == 'polish' else 'A & ~B',
                    'Sx', '((', 'F']
         h = parsex.history_outcome(notation, text, store0, earlier)
-        return h != got, f'{notation} {text!r}: fresh {got}, after earlier parses {h}'
+        r = parsex.redeclared_outcome(notation, text, store0)
+        return h != got or r != got, (f'{notation} {text!r}: fresh {got}, after earlier parses {h}, '
+                                      f'store redeclared in place {r}')
     if kind == 'validation':
         return got[0] == 'crash', f'{notation} {text!r}: {got} (harness mirror disagreed: {data["error"]})'
     return False, f'unknown kind {kind}'
